@@ -801,6 +801,11 @@ func (wk *worker) step() {
 			oc = "UNEXPECTED"
 		}
 		wk.rec("GetConnection", t, oc, errText(err))
+	case k < 68:
+		// a plain bool: true also once the pool has shut down
+		t := sched.Tick()
+		_ = pool.IsMaxOutgoingDefaultConnectionsReached()
+		wk.rec("IsMaxOutgoingDefaultConnectionsReached", t, "ok", "")
 	case k < 72:
 		t := sched.Tick()
 		n, err := pool.Size()
